@@ -29,15 +29,17 @@ def decode_status(ctx, nrf, st, what):
     ctx.check(nrf.irq_df == ((st & 0x10) != 0), what + ": irq_df = MAX_RT")
 
 
-def h_history(ctx, ops, role):
+def h_history(ctx, ops, role, driver="full"):
     clock = fresh_env(ctx)
-    radio, nrf = new_rf24(clock)
+    lite = driver == "lite"
+    radio, nrf = new_lite(clock) if lite else new_rf24(clock)
     dynamic = bool(ctx.choice("dynamic", 2))
+    lens = STATIC_LENS if not lite else (7,) * 6  # the lite driver has one global static length
     if dynamic:
         nrf.dynamic_payloads = True
     else:
         nrf.dynamic_payloads = False
-        nrf.payload_length = list(STATIC_LENS)
+        nrf.payload_length = list(STATIC_LENS) if not lite else 7
     for p in range(6):
         nrf.open_rx_pipe(p, bytes([0x40 + p, 9, 8, 7, 6]))
     nrf.listen = (role == "rx")
@@ -49,7 +51,7 @@ def h_history(ctx, ops, role):
         else:
             # static widths depend on the pipe: the head's pipe is enumerated, the others are fixed
             pipe = ctx.choice("rxpipe0", 6) if i == 0 else (i * 2 + 1) % 6
-            ln = STATIC_LENS[pipe]
+            ln = lens[pipe]
         radio.rx_fifo.append((pipe, blist(ctx.bytes("rx%d" % i, ln))))
     for i in range(n_tx):
         kind = "ack" if role == "rx" else "tx"
